@@ -164,7 +164,7 @@ class Engine(object):
         ex.old_state = st.copy()
         res.pre = list(st.pc)
         outs = ex.exec_block(fi.node.body, st)
-        short = fi.qual.split(':')[1]
+        short = c.qual.split(':')[1]
         modname = fi.modname
         for o in outs:
             if o.kind == 'normal':
